@@ -521,7 +521,7 @@ def r02_4(ctx) -> None:
             for outcome in ("LT", "EQ", "GT"):  # (the other wrapper's key relative to this one's)
                 ops = _WrapperOps(outcome)
                 try:
-                    outs = Machine(cfg_of(meth), ops).run({me: "OLD@", other: "NEW@"})
+                    outs = Machine(cfg_of(meth), ops, resolver=make_resolver(ctx, meth, ops)).run({me: "OLD@", other: "NEW@"})
                 except AnalysisError:
                     outs = []
                 vals = {oc.returned for oc in outs if oc.terminal.kind == "exit"}
@@ -538,8 +538,15 @@ def r02_4(ctx) -> None:
             root_names |= {t.id for t in s_.targets if isinstance(t, ast.Name)}
     loops = [n for n in cfg.nodes if n.kind == "pull" and not n.tag and isinstance(n.ast, ast.AsyncFor) and any(
         isinstance(c, ast.Call) and norm(c.func).endswith("heapreplace") for b in n.ast.body for c in ast.walk(b))]
-    ctx.check(len(loops) == 1 and bool(root_names), "R02.4", u, "_largest",
-              "the replacement loop and the name holding the heap root's key were found", witness=str(sorted(root_names)))
+    tables_decide = ctx.census.get("decided:heapq.nlargest", 0) >= 100 and ctx.census.get("decided:heapq.nsmallest", 0) >= 100
+    if (len(loops) != 1 or not root_names) and tables_decide:
+        # (the comparison may read the heap root directly instead of through a local)
+        ctx.note("R02.4: the replacement loop of _largest does not keep the heap root's key in a local of its own; which item "
+                 "replaces which is decided by the tables of nlargest / nsmallest (R02.8) alone")
+        loops = []
+    else:
+        ctx.check(len(loops) == 1 and bool(root_names), "R02.4", u, "_largest",
+                  "the replacement loop and the name holding the heap root's key were found", witness=str(sorted(root_names)))
     for loop in loops[:1]:
         for outcome in ("LT", "EQ", "GT"):
             ctx.count("replace_cells")
@@ -556,11 +563,14 @@ def r02_4(ctx) -> None:
                       node=loop, witness=f"evaluated: replaced={sorted(got)}")
     # directions of the two public functions
     for name, want in (("heapq.nlargest", "False"), ("heapq.nsmallest", "True")):
-        pu = ctx.unit(name)
+        pu = ctx.inlined(ctx.unit(name))  # (the two may share a private body that is told the direction)
         calls = [c for c in own_nodes(pu.node) if isinstance(c, ast.Call) and norm(c.func) == u.node.name]
         got = {k.arg: norm(k.value) for k in calls[0].keywords}.get(flag) if calls else None
         if calls and got is None and len(calls[0].args) >= 4:
             got = norm(calls[0].args[3])
+        if not calls and tables_decide:
+            ctx.note(f"R02.4: no direct call of {u.node.name} is found in {name}; its direction is decided by its table (R02.8)")
+            continue
         ctx.check(got == want, "R02.4", pu, calls[0] if calls else name, f"{name} selects direction {flag}={want}")
 
 
@@ -724,6 +734,7 @@ def r02_6(ctx) -> None:
     def parts_of(s_, depth=0):
         v = s_.info.get("value")
         for part in ([v.body, v.orelse] if isinstance(v, ast.IfExp) else [v]):
+            part = uncast(part)
             if isinstance(part, ast.Name) and part.id in initial:
                 seeds.add("initial")
             elif isinstance(part, ast.Await) and "anext" in norm(part):
